@@ -181,7 +181,14 @@ func (p *parallelNode) nextAppend(index int, plan planNode) (bool, error) {
 	return true, nil
 }
 
-func (p *parallelNode) Source() planNode { return p.multiscan }
+func (p *parallelNode) Source() planNode {
+	if p.multiscan == nil {
+		// A parallelNode that was created for a commit plan (`_version`) shares no scanNode,
+		// its documents come from its first child.
+		return p.children[0]
+	}
+	return p.multiscan
+}
 
 func (p *parallelNode) Children() []planNode {
 	return p.children
@@ -212,6 +219,18 @@ func (s *selectNode) addSubPlan(fieldIndex int, newPlan planNode) error {
 		}
 
 	case *typeIndexJoin:
+		if _, isDagScan := newPlan.(*dagScanNode); isDagScan {
+			// a commit plan reads no documents of its own, it is driven by
+			// the documents of the join and needs no shared scanNode
+			m := &parallelNode{
+				p:         s.planner,
+				docMapper: docMapper{s.source.DocumentMap()},
+			}
+			m.addChild(-1, s.source)
+			m.addChild(fieldIndex, newPlan)
+			s.source = m
+			return nil
+		}
 		origScan, _ := walkAndFindPlanType[*scanNode](newPlan)
 		if origScan == nil {
 			return ErrFailedToFindScanNode
